@@ -85,12 +85,20 @@ def history_ops(rng, spec, kind):
         n = rng.randint(1, len(spec["topics"][t]) - 1)
         return [T("load_metadata_all"),
                 {"op": T("load_metadata", [[t]]), "mutate": {"kind": "body", "api": "metadata", "body": shrink_body(spec, t, n)}}]
+    if kind in ("all_failedall", "all_failedsubset"):
+        # a load that fails (the pooled connection refuses the write, no other bootstrap host can be reached): a full load has already
+        # forgotten everything, a named load leaves what was known; the fault plan is lifted again by the next item
+        failing = T("load_metadata_all") if kind == "all_failedall" else T("load_metadata", [sub()])
+        return [T("load_metadata_all"),
+                {"op": failing, "plan": {"write": {0: ["fail", "other"]}}, "unreachable": hosts_of(spec), "fails": True},
+                {"op": T("topics"), "plan": None, "unreachable": []}]
     if kind == "none":
         return []
     raise ValueError(kind)
 
 
-HISTORIES = ["all", "all", "all", "subset", "subset", "all_reset", "all_reset_subset", "subset_subset", "shrunk", "shrunk", "none"]
+HISTORIES = ["all", "all", "all", "subset", "subset", "all_reset", "all_reset_subset", "subset_subset", "shrunk", "shrunk", "none",
+             "all_failedall", "all_failedsubset"]
 
 
 def entry(rng, view, routes, want=None):
@@ -270,7 +278,7 @@ def make_case(rng, kind=None, two_phase=None):
     ops = [T("client_new", [hosts_of(spec)]), T("set_retry_max_attempts", [3])] + history_ops(rng, spec, kind)
     ops.append(T("set_group_offset_storage", [rng.choice([0, 1, 1])]))
     two_phase = rng.random() < 0.25 if two_phase is None else two_phase
-    phases = 2 if two_phase and kind != "none" else 1
+    phases = 2 if two_phase and kind not in ("none", "all_failedall", "all_failedsubset") else 1
     tail = None
     for ph in range(phases):
         if ph == 1:
@@ -281,9 +289,14 @@ def make_case(rng, kind=None, two_phase=None):
                                [T("load_metadata_all")]])
         m = replay_merge({"cluster": spec, "ops": ops}, len(ops) - 1)
         view, routes = {t: list(v) for t, v in m.view.items()}, m.routes()
+        pview, proutes = view, routes
+        if kind in ("all_failedall", "all_failedsubset") and ph == 0:
+            # the probes name what was known BEFORE the failed load (the oracle judges them against what is loaded after it)
+            m0 = replay_merge({"cluster": spec, "ops": ops[:3]}, 2)
+            pview, proutes = {t: list(v) for t, v in m0.view.items()}, m0.routes()
         has_conn = kind != "none"
-        body = probe_ops(rng, view, routes, rng.randint(3, 6) if phases == 2 else rng.randint(5, 9), has_conn)
-        body += regression_ops(rng, view)
+        body = probe_ops(rng, pview, proutes, rng.randint(3, 6) if phases == 2 else rng.randint(5, 9), has_conn)
+        body += regression_ops(rng, pview)
         rng.shuffle(body)
         ops += body
         if ph == phases - 1:
@@ -358,8 +371,11 @@ def oracle(case, recs, cl):
     for i, rec in enumerate(recs):
         op, res = rec["op"], rec["impl"]
         if op.name in LOADS or op.name in ("client_new", "reset_metadata", "set_group_offset_storage", "set_retry_max_attempts", "into_client"):
-            if op.name in LOADS and res.name != "ok":
+            planned = isinstance(case["ops"][i], dict) and case["ops"][i].get("fails")
+            if op.name in LOADS and res.name != "ok" and not planned:
                 fails.append("C20 op %d: metadata load failed: %s" % (i, dumps(res)[:80]))
+            if op.name in LOADS and res.name == "ok" and planned:
+                fails.append("C20 op %d: the metadata load could reach no host but returned %s" % (i, dumps(res)[:80]))
             continue
         m = replay_merge(case, i, recs)
         view, routes = m.view, m.routes()
